@@ -23,29 +23,44 @@ type c04Set struct {
 	Cols   int
 	Tuples []c04Tuple
 	Upper  bool // single column grouped by upper(k)
+	Alias  bool // every grouping column but the first is selected under an alias (b AS b_x)
+}
+
+// outName: the name under which grouping column i is reported.
+func (s c04Set) outName(i int) string {
+	if s.Upper {
+		return "ua"
+	}
+	if s.Alias && i > 0 {
+		return c04ColNames[i] + "_x"
+	}
+	return c04ColNames[i]
 }
 
 var us = "\x1f"
 
 var c04Sets = []c04Set{
-	{"none", 0, []c04Tuple{{}}, false},
-	{"pipe1", 1, []c04Tuple{{"a|b"}, {"a"}, {"b"}, {""}}, false},
-	{"null1", 1, []c04Tuple{{nil}, {""}, {"\x00NULL"}}, false},
-	{"missing1", 1, []c04Tuple{{c04Missing}, {""}, {"a"}}, false},
-	{"num1", 1, []c04Tuple{{1}, {1.5}, {-1}, {0}}, false},
-	{"us1", 1, []c04Tuple{{"a" + us + "b"}, {"a"}, {"b"}}, false},
-	{"upper1", 1, []c04Tuple{{"a"}, {"A"}, {"b"}}, true},
-	{"pipe2", 2, []c04Tuple{{"a|b", "c"}, {"a", "b|c"}, {"a", "b"}}, false},
-	{"us2", 2, []c04Tuple{{"a" + us + "b", "c"}, {"a", "b" + us + "c"}, {"a", "c"}}, false},
-	{"null2", 2, []c04Tuple{{nil, "x"}, {"", "x"}, {"\x00NULL", "x"}}, false},
-	{"comma2", 2, []c04Tuple{{"a,b", "c"}, {"a", "b,c"}, {"1", "2"}}, false},
-	{"num2", 2, []c04Tuple{{1, 1.5}, {1, -1}, {0, 1}}, false},
-	{"bignum1", 1, []c04Tuple{{16777216.0}, {16777217.0}, {9007199254740992.0}, {0.1}}, false},
-	{"bignum2", 2, []c04Tuple{{1700000000123.0, "x"}, {1700000000124.0, "x"}, {1700000000123.0, "y"}}, false},
-	{"bigint1", 1, []c04Tuple{{int64(9007199254740993)}, {int64(9007199254740992)}, {int64(-9007199254740993)}}, false},
-	{"nullnull2", 2, []c04Tuple{{nil, nil}, {"", ""}, {"a", nil}}, false},
-	{"pipe3", 3, []c04Tuple{{"a|b", "c", "d"}, {"a", "b|c", "d"}, {"a", "b", "c|d"}}, false},
-	{"empty3", 3, []c04Tuple{{"a", "", "b"}, {"a", "b", ""}, {"", "a", "b"}}, false},
+	{"none", 0, []c04Tuple{{}}, false, false},
+	{"pipe1", 1, []c04Tuple{{"a|b"}, {"a"}, {"b"}, {""}}, false, false},
+	{"null1", 1, []c04Tuple{{nil}, {""}, {"\x00NULL"}}, false, false},
+	{"missing1", 1, []c04Tuple{{c04Missing}, {""}, {"a"}}, false, false},
+	{"num1", 1, []c04Tuple{{1}, {1.5}, {-1}, {0}}, false, false},
+	{"us1", 1, []c04Tuple{{"a" + us + "b"}, {"a"}, {"b"}}, false, false},
+	{"upper1", 1, []c04Tuple{{"a"}, {"A"}, {"b"}}, true, false},
+	{"pipe2", 2, []c04Tuple{{"a|b", "c"}, {"a", "b|c"}, {"a", "b"}}, false, false},
+	{"us2", 2, []c04Tuple{{"a" + us + "b", "c"}, {"a", "b" + us + "c"}, {"a", "c"}}, false, false},
+	{"null2", 2, []c04Tuple{{nil, "x"}, {"", "x"}, {"\x00NULL", "x"}}, false, false},
+	{"comma2", 2, []c04Tuple{{"a,b", "c"}, {"a", "b,c"}, {"1", "2"}}, false, false},
+	{"num2", 2, []c04Tuple{{1, 1.5}, {1, -1}, {0, 1}}, false, false},
+	{"bignum1", 1, []c04Tuple{{16777216.0}, {16777217.0}, {9007199254740992.0}, {0.1}}, false, false},
+	{"bignum2", 2, []c04Tuple{{1700000000123.0, "x"}, {1700000000124.0, "x"}, {1700000000123.0, "y"}}, false, false},
+	{"bigint1", 1, []c04Tuple{{int64(9007199254740993)}, {int64(9007199254740992)}, {int64(-9007199254740993)}}, false, false},
+	{"nullnull2", 2, []c04Tuple{{nil, nil}, {"", ""}, {"a", nil}}, false, false},
+	{"pipe3", 3, []c04Tuple{{"a|b", "c", "d"}, {"a", "b|c", "d"}, {"a", "b", "c|d"}}, false, false},
+	{"empty3", 3, []c04Tuple{{"a", "", "b"}, {"a", "b", ""}, {"", "a", "b"}}, false, false},
+	// "reports that tuple under the selected column names": an un-renamed column before renamed ones
+	{"alias2", 2, []c04Tuple{{"a", "x"}, {"a", "y"}, {"b", "x"}}, false, true},
+	{"alias3", 3, []c04Tuple{{"a", "x", 1}, {"a", "y", 1}, {"a", "x", 2}}, false, true},
 }
 
 var c04Kinds = []string{"tumbling", "counting", "session", "global"}
@@ -123,6 +138,9 @@ func c04SQL(set c04Set, kind string) string {
 		if set.Upper {
 			sel = append(sel, "upper(a) AS ua")
 			grp = append(grp, "upper(a)")
+		} else if set.Alias && i > 0 {
+			sel = append(sel, c04ColNames[i]+" AS "+set.outName(i))
+			grp = append(grp, c04ColNames[i])
 		} else {
 			sel = append(sel, c04ColNames[i])
 			grp = append(grp, c04ColNames[i])
@@ -177,10 +195,7 @@ func c04GroupKey(set c04Set, t c04Tuple) string {
 func c04RowKey(set c04Set, r Row) string {
 	var t c04Tuple
 	for i := 0; i < set.Cols; i++ {
-		name := c04ColNames[i]
-		if set.Upper {
-			name = "ua"
-		}
+		name := set.outName(i)
 		v, ok := r[name]
 		if !ok {
 			v = nil
